@@ -108,8 +108,10 @@ func (op *pipelineOp) exec(fm *Frame) Exception {
 		var fops []formOwnedPort
 		inputIsPipe := i > 0
 		outputIsPipe := i < nforms-1
+		// The form may redirect port 0 again, so remember the pipe itself.
+		input := nextIn
 		if inputIsPipe {
-			newFm.ports[0] = nextIn
+			newFm.ports[0] = input
 			growAccess(&fops, 0).File = true
 		}
 		if outputIsPipe {
@@ -139,7 +141,6 @@ func (op *pipelineOp) exec(fm *Frame) Exception {
 				*pexc = exc
 			}
 			if inputIsPipe {
-				input := newFm.ports[0]
 				*input.sendError = errs.ReaderGone{}
 				close(input.sendStop)
 				input.readerGone.Store(true)
